@@ -243,6 +243,9 @@ def run_c10(ctx, replay=None):
     def one(key, evs):
         (w, n, b) = key
         name = "W%d_N%d_%s" % (w, n, "batch" if b else "nobatch")
+        for e in evs:
+            if e.get("ev") == "reset":
+                e["W"] = int(w)      # the workload's window, for clause (5) of the monitor (script data, not an observation)
         return _validate_blocks2(ctx, evs, name, {"W": str(w), "N": str(n), "Batching": _tla_bool(b)})[1]
     groups = sorted(_group_events(scripts, events).items())
     for rejects in _par([(lambda k=k, e=e: one(k, e)) for k, e in groups], 3):
@@ -254,26 +257,6 @@ def run_c10(ctx, replay=None):
             what = "real secret store breaks C10 in block %s (crash at mutation %s, retry=%s) at line %s: observed %s" % (
                 rj["id"], rs.get("crashAt"), rs.get("retry"), rj["at"], json.dumps(line, sort_keys=True)[:600])
             ctx.violation(what, {"script": one_sc, "observed": rj["events"], "rejected_line": line, "step": rj["at"]})
-    # informational, outside the four clauses of the statement: a registration that returned after the restart
-    # (redelivery of the interrupted RegisterChainKey) should give its whole window
-    lost = []
-    for bid, evs in blocks:
-        w = byid[_sid(bid)]["cfg"]["W"]
-        cr = next((e for e in evs if e.get("ev") == "register" and e.get("crashed")), None)
-        if not cr:
-            continue
-        i = evs.index(cr)
-        if any(e.get("ev") == "register" and e["s"] == cr["s"] and e["d"] == cr["d"] and e.get("muts") for e in evs[:i]):
-            continue
-        redo = next((e for e in evs[i + 1:] if e.get("ev") == "register" and (e["s"], e["d"], e["x"]) == (cr["s"], cr["d"], cr["x"]) and e.get("ok") and not e.get("crashed")), None)
-        fin = next((e for e in evs if e.get("ev") == "probes" and e.get("phase") == "final" and e["s"] == cr["s"]), None)
-        if redo and fin:
-            miss = [p for p in fin["all"] if p[0] == cr["d"] and cr["x"] < p[1] <= cr["x"] + w and p not in fin["open"]]
-            if miss:
-                lost.append({"block": bid, "register": [cr["s"], cr["d"], cr["x"]], "not_openable": miss})
-    if lost:
-        ctx.extra.setdefault("outside_property", []).append({"note": "a RegisterChainKey call that returned ok after the restart did not make its window openable (keys lost for good); not one of the C10 clauses, reported only", "count": len(lost), "examples": lost[:3]})
-        vf.log("outside the property: %d blocks where a redelivered registration lost its window" % len(lost))
     ctx.evaluations += nblocks
     ctx.distinct_nontrivial += torn
     for bid, evs in blocks:
